@@ -16,7 +16,7 @@ RULE = ('bounded-exhaustive: every on-disk ruleset whose structure list has 1..3
         'position, absent and alone, is loaded by the real loader under all 4 flag combinations; the loaded grammar is compared with the reference reading and '
         'the real PcfgQueue stream under each flag with the default stream (non-M subsequence, order modulo ties, probabilities x 1/(1-P(M)); C variables '
         'collapsed to all-L at probability 1); session layer: run A under flags f quit at every guess, run B "--load" with no flags / no rule name must equal '
-        'run B with the flags repeated; non-trivial = ruleset/flag pair where the flag changes the stream')
+        'run B with the flags repeated and with every other flag set, and run B must continue the flagged stream (only its lines; A and B together all of them); non-trivial = ruleset/flag pair where the flag changes the stream')
 ASSUMPTIONS = ['order is compared modulo permutation among pre-terminals whose default probabilities are equal within float slack (DESIGN 4.3)',
                'P(Markov)=1 with skip_brute is outside the property (rescaling undefined)']
 NSHARDS = 16
